@@ -746,6 +746,10 @@ class Interp:
                 return L * R
             if isinstance(op, ast.Div):
                 return L / R
+            if isinstance(op, ast.Mod):
+                return nf.fn("mod", L, R)
+            if isinstance(op, ast.FloorDiv):
+                return nf.fn("floordiv", L, R)
         raise self.err(f"binary operator {type(op).__name__} on {l!r} and {r!r}", node, fi)
 
     def _e_Compare(self, e, env, fi):
@@ -1273,6 +1277,14 @@ def _i_repr(it, args, kw, node, fi):
     return "<repr>"
 
 
+def _i_id(it, args, kw, node, fi):
+    return nf.sym("<id()>", True)
+
+
+def _i_hash(it, args, kw, node, fi):
+    return nf.sym("<hash()>", True)
+
+
 def _i_print(it, args, kw, node, fi):
     return None
 
@@ -1282,7 +1294,7 @@ _BUILTIN_INTRINSICS = {
     "setattr": _i_setattr, "dir": _i_dir, "sorted": _i_sorted, "min": _i_min, "max": _i_max, "sum": _i_sum,
     "zip": _i_zip, "all": _i_all, "any": _i_any, "float": _i_float, "int": _i_int, "tuple": _i_tuple,
     "list": _i_list, "dict": _i_dict, "filter": _i_filter, "enumerate": _i_enumerate, "reversed": _i_reversed,
-    "round": _i_round, "abs": _i_abs, "repr": _i_repr, "print": _i_print, "str": _i_repr,
+    "round": _i_round, "abs": _i_abs, "repr": _i_repr, "print": _i_print, "str": _i_repr, "id": _i_id, "hash": _i_hash,
 }
 
 
